@@ -43,7 +43,7 @@ func main() {
 		c := storeh.Combos[i%len(storeh.Combos)]
 		g := &storeh.Gen{R: rng, C: c, Odd: 6}
 		lim := storeh.NoLimits
-		if rng.Chance(1, 12) {
+		if c.VT != "float64" && rng.Chance(1, 12) { // float texts (so their lengths) are outside the model
 			lim = storeh.Limits{Append: uint64(rng.Range(3, 8)), Total: uint64(rng.Range(8, 40)), Item: uint64(rng.Range(2, 6))}
 		}
 		maxOrd := rng.Range(0, 5)
